@@ -647,7 +647,9 @@ class ApplicationEntity:
             )
 
         # Set using a copy of the original to play nicely
-        contexts = deepcopy(contexts)
+        #   Copy each context on its own so the same object used twice in
+        #   `contexts` still gives two contexts with their own context IDs
+        contexts = [deepcopy(cx) for cx in contexts]
 
         # Add the context IDs
         for ii, context in enumerate(contexts):
